@@ -53,7 +53,7 @@ VDW_RADII = {  # in nm
     'Cl': 0.175,
     'Ar': 0.188,
     'As': 0.185,
-    'Se': 1.90,
+    'Se': 0.190,
     'Br': 0.185,
     'Kr': 0.202,
     'Te': 0.206,
